@@ -167,7 +167,8 @@ def summary_rows(model):
     return rows
 
 
-def run_scenario(scen, build_model, day_start=None, day_end=None, max_steps=100000, keep_model=False):
+def run_scenario(scen, build_model, day_start=None, day_end=None, max_steps=100000, keep_model=False,
+                 after_init=None):
     """Initialise and step a scenario one day at a time through the public API."""
     tr = Trace(scen)
     t0 = time.time()
@@ -175,6 +176,8 @@ def run_scenario(scen, build_model, day_start=None, day_end=None, max_steps=1000
         model = build_model(scen)
         model._initialize()
         tr.model = model
+        if after_init:
+            after_init(model, tr)
         while not model._clock_struct.model_is_finished and tr.n_steps < max_steps:
             cs = model._clock_struct
             ic = model._init_cond
